@@ -415,7 +415,7 @@ func (p *Peer) Settled() bool {
 		return false
 	}
 	at, ok := m.Consumed()
-	return ok && simrt.Now()-at > time.Second
+	return ok && simrt.Now()-at > time.Second+simrt.YieldSlack()
 }
 
 // WriteRaw writes directly (hostile scripts).
@@ -937,7 +937,7 @@ func (p *Peer) onRequest(r Req) {
 		} else if p.chokeMark != nil {
 			// The SUT's reader may hold our choke in its buffer (and its loop in its queue)
 			// for a while: only a request long after the choke was read is judged.
-			if at, ok := p.chokeMark.Consumed(); ok && simrt.Now()-at > 3*time.Second && p.pair != nil && simrt.Now()-at > 4*p.pair.Lat+3*time.Second {
+			if at, ok := p.chokeMark.Consumed(); ok && p.pair != nil && simrt.Now()-at > 4*p.pair.Lat+3*time.Second+simrt.YieldSlack() {
 				p.violate("C09", "request.while_choked", "request %v arrived %v after the SUT read our choke and the piece is not allowed-fast", r, simrt.Now()-at)
 			}
 		}
@@ -957,7 +957,7 @@ func (p *Peer) onRequest(r Req) {
 		// Written by the SUT after its socket read returned our latest choke, but perhaps before
 		// its event loop handled that choke (then it drops this request like the older ones):
 		// served as usual, not held against a later download of another piece.
-		if at, ok := p.lastChokeMark.Consumed(); ok && simrt.Now()-at < 3*time.Second+4*p.pair.Lat {
+		if at, ok := p.lastChokeMark.Consumed(); ok && simrt.Now()-at < 3*time.Second+4*p.pair.Lat+simrt.YieldSlack() {
 			if p.reqAmbig == nil {
 				p.reqAmbig = map[Req]bool{}
 			}
